@@ -538,3 +538,67 @@ Definition inline_norm (attrs : list (string * attr_kind)) (typed : list (string
        | CNotBool => INotBool
        | CUnrecognized => IUnrecognized
        end.
+
+(* ================================================================ pyproject.toml: destructure_overrides
+   [[tool.mypy.overrides]] tables, each with a module list and raw key/value settings, are flattened to
+   "mypy-<module>" sections: every module gets ITS OWN COPY of the table; a module that already has a
+   section is merged key by key, and two different values for one key raise ConfigTOMLValueError (the
+   whole file is then ignored).  Raw keys are compared before parse_section (no_x and x do not clash). *)
+Fixpoint list_eqb (a b : list string) : bool :=
+  match a, b with
+  | [], [] => true
+  | x :: a', y :: b' => String.eqb x y && list_eqb a' b'
+  | _, _ => false
+  end.
+Definition val_eqb (a b : val) : bool :=
+  match a, b with
+  | VBool x, VBool y => Bool.eqb x y
+  | VNum x, VNum y => Nat.eqb x y
+  | VStr x, VStr y => String.eqb x y
+  | VList x, VList y => list_eqb x y
+  | VNone, VNone => true
+  | _, _ => false
+  end.
+(* d[k] = v on a dict of settings *)
+Fixpoint ch_set (ch : changes) (k : string) (v : val) : changes :=
+  match ch with
+  | [] => [(k, v)]
+  | (k', v') :: r => if String.eqb k' k then (k', v) :: r else (k', v') :: ch_set r k v
+  end.
+(* for new_key, new_value in module_overrides.items(): conflict check, then result[name][new_key] = new_value *)
+Fixpoint merge_override (old new : changes) : option changes :=
+  match new with
+  | [] => Some old
+  | (k, v) :: r =>
+      match ch_get old k with
+      | Some v' => if val_eqb v' v then merge_override (ch_set old k v) r else None
+      | None => merge_override (ch_set old k v) r
+      end
+  end.
+Fixpoint destructure_modules (d : list (key * changes)) (mods : list key) (ch : changes) : option (list (key * changes)) :=
+  match mods with
+  | [] => Some d
+  | m :: r =>
+      match lookup d m with
+      | None => destructure_modules (d ++ [(m, ch)]) r ch
+      | Some old => match merge_override old ch with
+                    | Some merged => destructure_modules (dict_set d m merged) r ch
+                    | None => None
+                    end
+      end
+  end.
+Fixpoint destructure_go (d : list (key * changes)) (tables : list (list key * changes)) : option (list (key * changes)) :=
+  match tables with
+  | [] => Some d
+  | t :: r => match destructure_modules d (fst t) (snd t) with
+              | Some d' => destructure_go d' r
+              | None => None
+              end
+  end.
+Definition destructure_overrides (tables : list (list key * changes)) : option (list (key * changes)) :=
+  destructure_go [] tables.
+(* per_module_options as read from pyproject.toml / from the same tables written as [mypy-m1,m2] ini sections *)
+Definition pmo_of_toml (tables : list (list key * changes)) : option (list (key * changes)) :=
+  option_map (map (fun e => (fst e, with_code_defaults (snd e)))) (destructure_overrides tables).
+Definition pmo_of_ini (tables : list (list key * changes)) : list (key * changes) :=
+  pmo_of_sections (map (fun t => (fst t, with_code_defaults (snd t))) tables).
